@@ -33,11 +33,11 @@ def mk_handler(tab, hid):
     return handler
 
 
-def rnd_table(rnd, iface_mode, first=False):
+def rnd_table(rnd, iface_mode, first=False, addrs=(L_ADDR, R_ADDR)):
     def kv(k, v):
         return {"k": k, "v": str(v)}
-    L = {"f": [kv("addr", L_ADDR)], "fam": []}
-    R = {"f": [kv("addr", R_ADDR)], "fam": []}
+    L = {"f": [kv("addr", addrs[0])], "fam": []}
+    R = {"f": [kv("addr", addrs[1])], "fam": []}
     S = {"f": [], "fam": []}
     # both AS numbers are required by the API just like both addresses (to_bgp_peer reads connected.asnum): the first handler sets them
     # "@65000" = 65000 + the number in the device's own name (handlers are functions of the matched names): a1 -> 65001, b2 -> 65002
@@ -68,10 +68,10 @@ def rnd_table(rnd, iface_mode, first=False):
     return {"L": L, "R": R, "S": S}
 
 
-def resolve(tab):
-    """the table as the judge sees it: name-derived values computed for the devices of the topology (left a1, right b2)"""
+def resolve(tab, nl=1, nr=2):
+    """the table as the judge sees it: name-derived values computed for the devices of the pair (default: left a1, right b2)"""
     out = copy.deepcopy(tab)
-    for side, n in (("L", 1), ("R", 2)):
+    for side, n in (("L", nl), ("R", nr)):
         for kv in out[side]["f"]:
             if kv["v"].startswith("@"):
                 kv["v"] = str(int(kv["v"][1:]) + n)
@@ -97,6 +97,80 @@ def topo(nlinks, rev_b=False):
     return st, a, b
 
 
+def topo3():
+    """chain a1 -- b2 -- c3 (a1 and c3 are not linked): b2 has two neighbours served by different rules"""
+    from tests.annet.test_mesh.fakes import FakeStorage, FakeDevice, FakeInterface
+    a = FakeDevice("a1.ex", [FakeInterface("if0", "b2.ex", "eth0"), FakeInterface("lo0", None, None)])
+    b = FakeDevice("b2.ex", [FakeInterface("eth0", "a1.ex", "if0"), FakeInterface("xe0", "c3.ex", "ge0"), FakeInterface("lo0", None, None)])
+    c = FakeDevice("c3.ex", [FakeInterface("ge0", "b2.ex", "xe0"), FakeInterface("lo0", None, None)])
+    st = FakeStorage()
+    for d in (a, b, c):
+        st.add_device(d)
+        d.storage = st
+
+    def sc(d1, d2):
+        return [(i, d2.find_interface(i.neighbor_port)) for i in d1.interfaces if i.neighbor_fqdn == d2.fqdn]
+    st.search_connections = sc
+    return st, a, b, c
+
+
+def chain_case(rnd, recs, ctx):
+    """three devices, two rules with different name templates, decoy rules that must not apply (filter false / regex template not matching);
+    every linked pair becomes one pair record for the same judge"""
+    from annet.mesh import MeshExecutor, MeshRulesRegistry, united_ports
+    from annet.mesh.match_args import Left, Right
+    kind = rnd.choice(["direct", "indirect"])
+    A1, A2 = ("10.0.0.1/31", "10.0.0.0/31"), ("10.0.1.1/31", "10.0.1.0/31")
+    hs1 = [rnd_table(rnd, "plain", first=True, addrs=A1)]
+    hs2 = [rnd_table(rnd, "plain", first=True, addrs=A2)]
+    for hs, ad in ((hs1, A1), (hs2, A2)):
+        if rnd.random() < 0.5:      # a second handler of the pair that only adds address families (no conflict possible)
+            t = rnd_table(rnd, "plain", addrs=ad)
+            for side in "LRS":
+                t[side]["f"] = [kv for kv in t[side]["f"] if kv["k"] == "addr"]
+            hs.append(t)
+    decoy = rnd_table(rnd, "plain", first=True, addrs=("10.9.9.1/31", "10.9.9.0/31"))
+    regs = [("a{n}.ex", "b{n}.ex", (), h, "p1") for h in hs1] + [("b{n}.ex", "c{n}.ex", (), h, "p2") for h in hs2]
+    regs.append(("{x:[a-c]}{n}.ex", "{x:[a-c]}{n}.ex", (Left.n > 9,), decoy, "decoy-filter"))                # never true: no device number exceeds 9
+    regs.append((r"a{n:\d\d}.ex", "b{n}.ex", (), decoy, "decoy-regex"))                               # two digits: does not match a1
+    perms = [list(range(len(regs)))] + [rnd.sample(range(len(regs)), len(regs)) for _ in range(3)]
+    runs = {"p1": [], "p2": []}
+    for perm in perms:
+        st, a, b, c = topo3()
+        reg = MeshRulesRegistry()
+        for k in perm:
+            lm, rm, flt, tab, _tag = regs[k]
+            if kind == "direct":
+                reg.direct(lm, rm, *flt, port_processor=united_ports)(mk_handler(tab, k))
+            else:
+                reg.indirect(lm, rm, *flt)(mk_handler(tab, k))
+        ex = MeshExecutor(reg, st)
+        res, err = {}, {}
+        for dev, key in ((a, "a"), (b, "b"), (c, "c")):
+            try:
+                res[key], err[key] = proj(ex.execute_for(dev)), False
+            except Exception:
+                res[key], err[key] = [], True
+        ip = lambda x: x.split("/")[0]
+        runs["p1"].append({"order": perm, "errA": err["a"], "errB": err["b"], "A": res["a"], "B": [p for p in res["b"] if p["addr"] == ip(A1[0])]})
+        runs["p2"].append({"order": perm, "errA": err["b"], "errB": err["c"], "A": [p for p in res["b"] if p["addr"] == ip(A2[1])], "B": res["c"]})
+        # b2 must see exactly its two neighbours, a1 and c3 exactly one
+        runs["p1"][-1]["extra"] = len(res["a"]) != 1 or len(res["b"]) != 2 or len(res["c"]) != 1
+    for tag, hs, ad, nl, nr, ifs in (("p1", hs1, A1, 1, 2, ("if0", "eth0")), ("p2", hs2, A2, 2, 3, ("xe0", "ge0"))):
+        rs = runs[tag]
+        if tag == "p1" and any(r.pop("extra", False) for r in rs) and not any(r["errA"] or r["errB"] for r in rs):
+            for r in rs:
+                r["A"] = r["A"] + [dict(r["A"][0], addr="unexpected-number-of-peers")] if r["A"] else r["A"]
+        for r in rs:
+            r.pop("extra", None)
+        recs.append({"id": "chain-%s-%d" % (tag, len(recs)), "kind": "pair", "hs": [resolve(h, nl, nr) for h in hs], "hs_src": hs,
+                     "ipL": ad[0].split("/")[0], "ipR": ad[1].split("/")[0], "runs": rs,
+                     "ifaceA": ifs[0] if kind == "direct" else "", "ifaceB": ifs[1] if kind == "direct" else "", "ambiguous": False,
+                     "meta": {"topology": "chain a1-b2-c3", "rule": kind, "pair": tag}})
+        ctx.count(len(rs))
+        ctx.nontrivial(json.dumps(["chain", tag, hs]))
+
+
 def proj(cfg):
     out = []
     for p in cfg.peers:
@@ -116,7 +190,7 @@ def run(ctx):
     ctx.cov["rule"] = ("(topology of two linked devices with 1..3 parallel links, set of 1..3 handler tables, rule kind, interface mode) x every registration "
                        "permutation x both ends; non-trivial = distinct cases with >= 2 handlers where at least one field is assigned by two handlers")
     ctx.assumptions += ["handlers are pure tables of (left, right, session) assignments, always including both peer addresses", "stub storage/devices "
-                        "from the repository's tests/annet/test_mesh/fakes.py", "two-device topologies (3..5 device topologies are not built yet)"]
+                        "from the repository's tests/annet/test_mesh/fakes.py", "two-device topologies and three-device chains (b2 served by two rules with different name templates, decoy rules with a false filter / a non-matching regex template); virtual and device rules are not driven"]
     r = ctx.mc("mc/MC_Mesh.tla", "mc/MC_Mesh.cfg", workers=2)
     if r.violated:
         ctx.reject("mc", "Mesh model: %s" % r.violated, {"tlc": r.out[-2000:]}, None)
@@ -159,6 +233,8 @@ def run(ctx):
         ctx.count(len(runs))
         if len(hs) >= 2:
             ctx.nontrivial(json.dumps(hs))
+    for k in range(150 if quick else 4000):
+        chain_case(rnd, recs, ctx)
     # ---- merge laws on model instances per declared merger
     from annet.mesh.peer_models import MeshSession, DirectPeerDTO
     for k in range(300 if quick else 5000):
